@@ -24,7 +24,7 @@ RULE = (
     "with numpoly.align_polynomials (float operands with a constant term and all names, i.e. nothing left to align) "
     "/ first operand passed twice / a keyword corrupted so that the call raises; byte snapshots (shape, dtype, names, "
     "keys, exponents bytes, raw structured buffer bytes; ndarrays by bytes, lists by deep equality) of every "
-    "argument before and after. Explicit outputs (out=, copyto destination) are not generated. "
+    "argument before and after. out= is not generated; for copyto only the source (and where=) is watched. "
     "non-trivial = the call received a polynomial argument that needed no alignment (aliasing possible) or raised."
 )
 ASSUMPTIONS = [
@@ -128,7 +128,9 @@ def check_case(case, ctx):
         spelling = "numpoly"
     if spelling == "numpy" and not RECIPES[fn].np_name:
         spelling = "numpoly"
-    before = snapshot([args, kw])
+    # explicit output targets are not arguments in the sense of the property
+    watched = [args[1:], kw] if fn == "copyto" else [args, kw]
+    before = snapshot(watched)
     raised = None
     try:
         run_call(case, args, kw, spelling)
@@ -136,7 +138,7 @@ def check_case(case, ctx):
         raise
     except Exception as err:
         raised = type(err).__name__
-    after = snapshot([args, kw])
+    after = snapshot(watched)
     fails = []
     if before != after:
         cls = "raised" if raised else "returned"
